@@ -1,6 +1,6 @@
 SPECIFICATION TSpec
 CONSTANTS
-  Threads = {"t0", "t1", "t9"}
+  Threads = {"t0", "t1", "t2", "t9"}
   Cap = 2
   MaxFs = 100000
   MaxQ = 100000
